@@ -128,6 +128,14 @@ func c20Case(c *core.Ctx, id string) {
 		return
 	}
 	onceV, _ := cacheV.(starlark.HasAttrs).Attr("once")
+	// a second cache: a quarter of the calls reach the first one from inside a callable of the second (a callable may use
+	// another cache; the thread then holds whatever the outer once holds)
+	outerV, err := starlark.Call(&starlark.Thread{Name: "mk2"}, c20globals["Cache"], nil, nil)
+	if err != nil {
+		c.Violation(id, "", "cache-constructor-error", map[string]any{"error": err.Error()})
+		return
+	}
+	outerOnce, _ := outerV.(starlark.HasAttrs).Attr("once")
 
 	var clock atomic.Int64
 	var mu sync.Mutex
@@ -138,11 +146,12 @@ func c20Case(c *core.Ctx, id string) {
 		key  string
 		fail bool
 		y    int
+		via  bool // through a callable of the outer cache
 	}
 	plans := make([][]plan, nclients)
 	for cl := range plans {
 		for k := 0; k < per; k++ {
-			plans[cl] = append(plans[cl], plan{keyFor(r.IntN(nkeys)), r.IntN(100) < failPct, r.IntN(6)})
+			plans[cl] = append(plans[cl], plan{keyFor(r.IntN(nkeys)), r.IntN(100) < failPct, r.IntN(6), r.IntN(4) == 0})
 		}
 	}
 	var wg sync.WaitGroup
@@ -171,7 +180,16 @@ func c20Case(c *core.Ctx, id string) {
 				})
 				in := onceIn{Key: pl.key, WillFail: pl.fail, MyID: myID}
 				t0 := clock.Add(1)
-				v, err := starlark.Call(thread, onceV, starlark.Tuple{starlark.String(pl.key), callable}, nil)
+				var v starlark.Value
+				var err error
+				if pl.via {
+					nested := starlark.NewBuiltin("nested", func(th *starlark.Thread, _ *starlark.Builtin, _ starlark.Tuple, _ []starlark.Tuple) (starlark.Value, error) {
+						return starlark.Call(th, onceV, starlark.Tuple{starlark.String(pl.key), callable}, nil)
+					})
+					v, err = starlark.Call(thread, outerOnce, starlark.Tuple{starlark.String("via/" + myID), nested}, nil)
+				} else {
+					v, err = starlark.Call(thread, onceV, starlark.Tuple{starlark.String(pl.key), callable}, nil)
+				}
 				t1 := clock.Add(1)
 				out := onceOut{Err: err != nil, Invoked: invoked}
 				if err == nil {
